@@ -43,6 +43,27 @@ fn parse_line(line: &str) -> Result<Option<(IpAddr, HashSet<DomainName>)>, Error
     let mut new_names = HashSet::new();
 
     for (i, octet) in line.char_indices() {
+        if octet == '#' {
+            // a comment ends the name being read (it does not discard it), and
+            // whatever follows - ASCII or not - is not looked at
+            if let State::ReadingName { start } = state {
+                let name_str = &line[start..i];
+                match DomainName::from_relative_dotted_string(&DomainName::root_domain(), name_str)
+                {
+                    Some(name) => {
+                        new_names.insert(name);
+                    }
+                    None => {
+                        return Err(Error::CouldNotParseName {
+                            name: name_str.into(),
+                        })
+                    }
+                }
+            }
+            state = State::CommentToEndOfLine;
+            break;
+        }
+
         if !octet.is_ascii() {
             return Err(Error::ExpectedAscii { octet });
         }
